@@ -7,7 +7,8 @@ from . import common as C
 
 SPEC = os.path.join(C.VERIF, "spec", "typeid")
 NAMES = ["A", "B", "c", "d"]
-BASE = [["val", "none", "ptr", "none"], ["none", "ptr", "none", "val"], ["ptr", "val", "val", "none"]]
+BASE = [["val", "none", "ptr", "none"], ["none", "ptr", "none", "val"], ["ptr", "val", "val", "none"], ["val", "none", "val", "ptr"]]
+FOREIGN_BASE = 4      # declared in package p2 (MethodSets.ForeignBase)
 
 
 def run(chk, thorough):
@@ -30,22 +31,25 @@ def run(chk, thorough):
     b2i = "func b2i(b bool) int { if b { return 1 }; return 0 }"
     p1 = ["package p1", "", b2i]
     p2 = ["package p2", "", b2i]
+    p1[1:1] = ['import "c07m/p2"', "", "var _ p2.E4", ""]
     for b, own in enumerate(BASE, 1):
-        p1.append("type E%d struct{ pad int }" % b)
+        out = p2 if b == FOREIGN_BASE else p1
+        out.append("type E%d struct{ Pad int }" % b)
         for i, rk in enumerate(own):
             if rk != "none":
-                p1.append("func (e %sE%d) %s() int { return %d }" % ("*" if rk == "ptr" else "", b, NAMES[i], 9000 + b * 10 + i + 1))
+                out.append("func (e %sE%d) %s() int { return %d }" % ("*" if rk == "ptr" else "", b, NAMES[i], 9000 + b * 10 + i + 1))
     for (own, emb, base), tid in types.items():
         body = ""
+        q = "p2." if base == FOREIGN_BASE else ""
         if emb == "val":
-            body = "E%d" % base
+            body = "%sE%d" % (q, base)
         elif emb == "ptr":
-            body = "*E%d" % base
+            body = "*%sE%d" % (q, base)
         p1.append("type T%d struct{ %s; pad int }" % (tid, body) if body else "type T%d struct{ pad int }" % tid)
         for i, rk in enumerate(own):
             if rk != "none":
                 p1.append("func (t %sT%d) %s() int { return %d }" % ("*" if rk == "ptr" else "", tid, NAMES[i], tid * 10 + i + 1))
-        init = "T%d{E%d: &E%d{}}" % (tid, base, base) if emb == "ptr" else "T%d{}" % tid
+        init = "T%d{E%d: &%sE%d{}}" % (tid, base, q, base) if emb == "ptr" else "T%d{}" % tid
         p1.append("func MkV%d() any { return %s }" % (tid, init))
         p1.append("func MkP%d() any { v := %s; return &v }" % (tid, init))
     for (ms, alt, foreign), iid in ifaces.items():
